@@ -34,7 +34,14 @@ type Case struct {
 	Recorders  [][]Inc `json:"recorders"`
 	Closers    int     `json:"closers"`
 	After      bool    `json:"after"` // after Close: record on old handles, obtain a scope, Close again
-	Sched      []int   `json:"sched"`
+	// PreClosed: subscopes that are closed individually (values from Pre still pending) before any
+	// thread starts; nothing is recorded on them afterwards. Reacquire: one more thread asks the root
+	// for each of them again while the Close callers run (the library reports a closed scope it finds
+	// under a requested key on the caller's goroutine): the pending values were recorded before the
+	// root's Close was called, so they too must be delivered before Close returns, never after.
+	PreClosed []int `json:"preClosed,omitempty"`
+	Reacquire bool  `json:"reacquire,omitempty"`
+	Sched     []int `json:"sched"`
 }
 
 func gen(t *rapid.T) Case {
@@ -46,23 +53,42 @@ func gen(t *rapid.T) Case {
 	for i := 0; i < nc; i++ {
 		c.Counters = append(c.Counters, rapid.IntRange(0, c.NSub).Draw(t, "cscope"))
 	}
-	incs := func(max int, label string) []Inc {
+	incs := func(max int, label string, live bool) []Inc {
 		n := rapid.IntRange(0, max).Draw(t, label)
 		var out []Inc
 		for i := 0; i < n; i++ {
-			out = append(out, Inc{rapid.IntRange(0, nc-1).Draw(t, "c"), int64(rapid.IntRange(1, 9).Draw(t, "d"))})
+			in := Inc{rapid.IntRange(0, nc-1).Draw(t, "c"), int64(rapid.IntRange(1, 9).Draw(t, "d"))}
+			if live && c.preClosed(c.Counters[in.C]) {
+				continue // nothing is recorded on an individually closed subscope once the threads run
+			}
+			out = append(out, in)
 		}
 		return out
 	}
-	c.Pre = incs(4, "npre")
+	if c.NSub > 0 && rapid.IntRange(0, 2).Draw(t, "preclose?") == 0 {
+		c.PreClosed = rapid.SliceOfNDistinct(rapid.IntRange(1, c.NSub), 1, 2, rapid.ID[int]).Draw(t, "preClosed")
+		c.Reacquire = rapid.IntRange(0, 3).Draw(t, "reacquire") != 0
+		// make it likely that something is pending on them
+		c.Counters[0] = c.PreClosed[0]
+	}
+	c.Pre = incs(4, "npre", false)
 	nr := rapid.IntRange(0, 2).Draw(t, "nrecorders")
 	for i := 0; i < nr; i++ {
-		c.Recorders = append(c.Recorders, incs(5, "nincs"))
+		c.Recorders = append(c.Recorders, incs(5, "nincs", true))
 	}
 	c.Closers = rapid.SampledFrom([]int{1, 1, 1, 2, 3}).Draw(t, "closers")
 	c.After = rapid.Bool().Draw(t, "after")
-	c.Sched = sgen.Choices(t, 200, nr+c.Closers+2)
+	c.Sched = sgen.Choices(t, 200, nr+c.Closers+3)
 	return c
+}
+
+func (c Case) preClosed(scope int) bool {
+	for _, p := range c.PreClosed {
+		if p == scope {
+			return true
+		}
+	}
+	return false
 }
 
 var errReporterClose = errors.New("reporter-close-error")
@@ -144,6 +170,19 @@ func run(c Case) (pbt.Outcome, error) {
 		lower[cname[in.C]] += in.D
 		upper[cname[in.C]] += in.D
 	}
+	for _, p := range c.PreClosed {
+		if p >= 1 && p < len(scopes) {
+			_ = scopes[p].(interface{ Close() error }).Close()
+		}
+	}
+	if c.Reacquire {
+		s.Go("reacq", func() {
+			for _, p := range c.PreClosed {
+				root.SubScope(fmt.Sprintf("s%d", p))
+				s.Yield("harness:reacquired")
+			}
+		})
+	}
 	for ri, incs := range c.Recorders {
 		incs := incs
 		s.Go(fmt.Sprintf("rec%d", ri), func() {
@@ -183,14 +222,19 @@ func run(c Case) (pbt.Outcome, error) {
 				s.Yield("harness:wait-for-close:spin")
 			}
 			for i := range counters {
-				counters[i].Inc(1000)
+				if !c.preClosed(c.Counters[i]) {
+					counters[i].Inc(1000)
+				}
 			}
 			g.Update(7)
 			late := root.SubScope("late")
 			late.Counter("c").Inc(1)
 			late.Tagged(map[string]string{"x": "y"}).Gauge("g").Update(1)
 			// ... and through handles of subscopes that predate the Close
-			for _, old := range scopes {
+			for oi, old := range scopes {
+				if c.preClosed(oi) {
+					continue
+				}
 				l2 := old.SubScope("late2")
 				l2.Counter("c").Inc(1)
 				l2.Timer("t").Record(time.Millisecond)
@@ -379,6 +423,9 @@ func run(c Case) (pbt.Outcome, error) {
 	}
 	if c.Closers > 1 {
 		out.Classes = append(out.Classes, "concurrent-closers")
+	}
+	if c.Reacquire {
+		out.Classes = append(out.Classes, "closed-subscope-requested-again-during-close")
 	}
 	if res.Detaches > 0 {
 		out.Classes = append(out.Classes, "close-waited-for-loop")
